@@ -509,7 +509,7 @@ def undeclareVars (vrs : List String) : M (List String) := do
       | some nw => .ok (s.insert u { nd with lvl := nw })
       | none => .error .key) (.ok {})
   let succ' ← liftE succ'
-  let pred' : HashMap Nd Nat := succ'.foldl (fun acc u nd => acc.insert nd u) {}
+  let pred' : TreeMap (List Int) Nat := succ'.foldl (fun acc u nd => acc.insert nd.key u) {}
   M.set { m with tbl := { succ := succ', vars := vars', l2v := l2v' }, pred := pred', cache := {} }
   return rm
 
@@ -638,5 +638,57 @@ def toExprF : Nat → Tbl → Int → HashMap Int String → Except Err (String 
 def toExpr (t : Tbl) (u : Int) : Except Err String :=
   if !t.mem u then .error .value else
   (toExprF (t.nvars + 2) t u {}).map (·.1)
+
+end DD
+
+namespace DD
+
+/-! ### structural views: the abstract graph behind `to_nx` / `_to_dot` -/
+
+/-- nodes `(u, level)` and edges `(src, dst, value, complement)` of the export of `nodes` -/
+def graphOf (t : Tbl) (nodes : List Nat) :
+    Except Err (List (Nat × Nat) × List (Nat × Nat × Bool × Bool)) :=
+  nodes.foldlM (fun (acc : List (Nat × Nat) × List (Nat × Nat × Bool × Bool)) u =>
+    if u = 1 then .ok (acc.1 ++ [(1, t.nvars)], acc.2) else
+    match t.succ[u]? with
+    | none => .error .key
+    | some n => .ok (acc.1 ++ [(u, n.lvl)],
+        acc.2 ++ [(u, n.lo.natAbs, false, decide (n.lo < 0)), (u, n.hi.natAbs, true, false)])) ([], [])
+
+/-- the `while Q:` loop of `to_nx`: every popped node gets its node entry and its two
+edges added (again, if it is a root that is already in the graph: a `MultiDiGraph`) -/
+def nxLoop (t : Tbl) : Nat → List Nat → (List (Nat × Nat) × List (Nat × Nat × Bool × Bool)) →
+    Except Err (List (Nat × Nat) × List (Nat × Nat × Bool × Bool))
+  | _, [], g => .ok g
+  | 0, _ :: _, _ => .error .fuel
+  | f+1, u :: work, (ns, es) =>
+    if u = 1 then
+      nxLoop t f work ((if ns.any (·.1 = 1) then ns else ns ++ [(1, t.nvars)]), es)
+    else
+      match t.succ[u]? with
+      | none => .error .key
+      | some n =>
+        let ns := if ns.any (·.1 = u) then ns else ns ++ [(u, n.lvl)]
+        let v := n.lo.natAbs
+        let w := n.hi.natAbs
+        let work := if ns.any (·.1 = v) then work else pushNew work v
+        let work := if ns.any (·.1 = w) then work else pushNew work w
+        nxLoop t f work (ns, es ++ [(u, v, false, decide (n.lo < 0)), (u, w, true, false)])
+
+/-- `to_nx(bdd, roots)`; `roots` in iteration order -/
+def toNx (t : Tbl) (roots : List Int) :
+    Except Err (List (Nat × Nat) × List (Nat × Nat × Bool × Bool)) :=
+  roots.foldlM (fun g r =>
+    if !t.mem r then .error .value else nxLoop t (t.succ.size + 2) [r.natAbs] g) ([], [])
+
+/-- node/edge content of `_to_dot(roots, bdd)`; `none` = all nodes -/
+def toDot (t : Tbl) (roots : Option (List Int)) :
+    Except Err (List (Nat × Nat) × List (Nat × Nat × Bool × Bool)) :=
+  match roots with
+  | none => graphOf t (1 :: t.succ.keys)
+  | some rs =>
+    match descendants t rs with
+    | .error e => .error e
+    | .ok ns => if !ns.contains 1 then .error .assertion else graphOf t ns
 
 end DD
